@@ -107,8 +107,11 @@ class StorageTools:
         path = os.path.join(storage, name)
         logger.debug("Writing %s" % path)
 
-        with open(path, 'w' if type(val) is str else 'wb') as attrFile:
+        # write to a temporary file first so that a crash never leaves a truncated file behind
+        tmp_path = path + ".tmp"
+        with open(tmp_path, 'w' if type(val) is str else 'wb') as attrFile:
             attrFile.write(val)
+        getattr(os, "replace", os.rename)(tmp_path, path)
 
     @staticmethod
     def readProfileData(profile_name, name, default=None):
